@@ -5,7 +5,8 @@ import core
 from core import hx
 from runner import Case
 
-THEOREMS = []   # filled in below
+THEOREMS = ["C07.copy_fresh", "C07.sep_step", "C07.sep_run", "C07.no_alias_after_copy", "C07.clone_frame",
+            "C07.prune_frame", "C07.get_subtree_frame", "C07.mixed_history_frame", "C07.mixed_history_after_copy"]
 RULE = ("for every monitored function (11 exporters/printers incl. tree_to_dot and tree_to_mermaid, Node.show/hshow, 6 iterators, "
         "14 search functions, clone_tree, node.copy(), copy.deepcopy, get_subtree, prune_tree, get_tree_diff on either argument, "
         "copy_nodes_from_tree_to_tree and copy_and_replace_nodes_from_tree_to_tree on the source tree): a Node tree (all shapes "
@@ -623,7 +624,15 @@ def shrink(case):
         yield mk(d["fn"], go(d["spec"]), ren(d["start"]), d["tsep"], o, hist, ())
 
 
-NOT_READY = True
-LEVEL_TEXT = ""
-LEVEL_NOTE = ""
-TECHNIQUE = ""
+NOT_READY = False
+LEVEL_TEXT = ("partial: machine-checked (Lean 4) on the pointer-level store model for the copying functions - deep copy returns fresh "
+              "nodes, leaves every original cell unchanged, creates no link across the old/new boundary and equals the original up "
+              "to the id shift (copy_fresh); any later history on one side leaves the other side unchanged (sep_step, sep_run, "
+              "no_alias_after_copy, mixed_history_*); clone_tree, prune_tree and get_subtree, modelled as the compositions they are "
+              "in the code, write only fresh cells (clone_frame, prune_frame, get_subtree_frame). That the pure readers (exporters, "
+              "printers, iterators, searches, get_tree_diff, the source side of copy_*_from_tree_to_tree) do not mutate is NOT proved: "
+              "in the functional model it holds by typing; it rests on the monitor run against the real code on every check")
+LEVEL_NOTE = ("the tie compares, for every monitored function, every cell (parent, ordered children, name, public attributes) of the input "
+              "tree and of the returned tree after the call and after a random follow-up history with the Model-A store; the model-free "
+              "oracle re-checks signature-before == signature-after, object-identity disjointness and non-visibility of later mutations")
+TECHNIQUE = "Lean 4 proof (frame/separation theorems on a pointer-store model with deep copy) + runtime monitor tied to the model by differential testing"
